@@ -8,12 +8,14 @@ CONSTANTS
   Ctl <- C_none
   Closer = FALSE
   Rd <- R_pongD_pong_closeD
+  Fault <- F_none
   ControlTakesLock = TRUE
   FlushAtomic = TRUE
   LatchChecked = TRUE
   CloseLatches = TRUE
   TimeoutReleases = FALSE
   HandlerControlPath = TRUE
+  TimeoutFaultLatches = TRUE
   Fifo = TRUE
   OnlyBad = FALSE
   Family = "rwm"
